@@ -1,5 +1,5 @@
 // govc:pkg .
-// govc:bound HAVING: 5 aggregates x 2 columns x {>,<,>=} x 3 thresholds singly, and 40 AND/OR pairs of unselected aggregates (about 130 queries); SELECT items: 12 item shapes (incl. parenthesised literal operands) x aggregates {sum,avg,min,max,count} x columns {v,w} x operators {+,-,*,/} x literals {2,0.5,32} on one fixed batch of 3 groups x 3 rows (about 700 queries)
+// govc:bound HAVING: 5 aggregates x 2 columns x {>,<,>=} x 3 thresholds singly, and 40 AND/OR pairs of unselected aggregates (about 130 queries; every third one beside a compound SELECT item); SELECT items: 12 item shapes (incl. parenthesised literal operands) x aggregates {sum,avg,min,max,count} x columns {v,w} x operators {+,-,*,/} x literals {2,0.5,32} on one fixed batch of 3 groups x 3 rows (about 700 queries)
 // Bounded stand-in (NOT a proof): SELECT items that combine aggregate calls, literals and arithmetic, executed through
 // the real engine (Execute / Emit / sync sink) against a relational oracle computed from the same rows. The classification
 // and rewriting of such items (rsql/ast.go, aggregator/post_aggregation.go) is regular-expression based and outside the
@@ -302,7 +302,7 @@ func TestGovcBounded_having_unselected_aggregates(t *testing.T) {
 	}
 	_ = single
 	cases, fails := 0, 0
-	for _, pd := range preds {
+	for pi, pd := range preds {
 		cases++
 		want := map[string]bool{}
 		for g, rows := range byGroup {
@@ -310,7 +310,13 @@ func TestGovcBounded_having_unselected_aggregates(t *testing.T) {
 				want[g] = true
 			}
 		}
-		sql := "SELECT g, COUNT(*) AS n FROM stream GROUP BY g, CountingWindow(3) HAVING " + pd.sql
+		// every third predicate runs next to a compound SELECT item, whose post-aggregation step cleans up its own
+		// placeholder columns and must leave the hidden HAVING columns alone
+		sel := "COUNT(*) AS n"
+		if pi%3 == 0 {
+			sel = "SUM(v) * 2 + 1 AS n"
+		}
+		sql := "SELECT g, " + sel + " FROM stream GROUP BY g, CountingWindow(3) HAVING " + pd.sql
 		got, err := govcRunHaving(sql, len(want))
 		detail := ""
 		if err != nil {
